@@ -154,6 +154,8 @@ def check(ctx):
             slot = canon(arg) in ("self.u", "self.u_best")
             if slot:
                 ctx.ok(f, call, f"logger({canon(arg)}) evaluates a point slot")
+            elif {"BOX", "FILT"} <= tags and "FEAS" not in tags:
+                ctx.fail(f, call, f"the point handed to the logger ({canon(arg)}) comes from a candidate set that was filtered without the user's constraint function on some path (tags {sorted(tags)})", construct=f"logger argument {canon(arg)} not checked against the constraints")
             elif {"BOX", "FILT"} <= tags:
                 ctx.ok(f, call, f"logger({canon(arg)}) evaluates a row of a filtered candidate set")
             else:
